@@ -25,7 +25,7 @@ func init() {
 
 // request menu of the session under test
 var requests = []string{"sub:a/b/", "sub:b/a/", "unsub:a/b/", "unsub:b/a/", "sub:a/", "watch:x/", "link:a/b/", "sub:y/", "sub:x/x/y/", "unsub:y/"}
-var wills = []string{"nowill", "will-ok", "will-unauthorized"}
+var wills = []string{"nowill", "will-ok", "will-unauthorized", "noconnect"}
 var endings = []string{"disconnect", "abort", "abort-eof-with-data", "malformed-subscribe", "bad-type", "oversized"}
 
 // Case is one cut of one session.
@@ -120,7 +120,8 @@ func (k *worker) runCase(cs Case) (kind, what string) {
 	case "will-unauthorized":
 		o.HasWill, o.WillTopic, o.WillMessage = true, k.ro+"/w/", "bye"
 	}
-	if !t.Connect(o) {
+	// "noconnect": the client never sends CONNECT (the broker serves requests without it)
+	if cs.Will != "noconnect" && !t.Connect(o) {
 		return "harness:no-connack", "CONNECT not acknowledged"
 	}
 	held := map[string]bool{}
